@@ -10,6 +10,7 @@ FLOOR = 253
 WEIGHTS_ALL = [400, 483, 562, 663, 703, 1000, 1250, 1999, 4000, 12345, 100000, 400000]
 
 EVIDENCE = dict(assumptions=[
+    'C07.h: one iteration of the loop of get_broadcasted_holder_htlc_descriptors and the package closure of get_broadcasted_holder_claims (our own commitment confirmed); commitment accessors, cloning, the preimage map and the package constructors are stubs',
     'C07.g: one iteration of the HTLC loop of ChannelMonitorImpl::get_counterparty_output_claim_info (which HTLC outputs of a confirmed counterparty commitment get a claim, and of what shape); keys, cloning, the preimage map, the package constructors and the output vector are stubs',
     'kernel only: package.rs fee kernels (compute_fee_from_spent_amounts, feerate_bump, compute_package_feerate, compute_package_output); which outputs are claimed, script/consensus validity, anchor bumping with wallet inputs and the sweeper are outside the claim',
     'predicted transaction weight ranges over a stated finite set of concrete weights (the kernels divide by the weight; each weight is a separate linear query); input amounts <= 21e14 sat; the fee estimator returns an arbitrary u32',
@@ -40,6 +41,7 @@ def run(S):
     locktime_and_output(S, D, W)
     merge(S, D)
     counterparty_commitment_claims(S, D)
+    holder_commitment_claims(S, D)
 
 
 def estimator(E):
@@ -387,3 +389,147 @@ def counterparty_commitment_claims(S, D):
     S.no_panic(ids[3], E, pre, 'no out-of-bounds index, no unwrap of a missing preimage', [b])
     S.witness(ids[4], E, pre + [has_idx, consistent, offered, known], cont)
     S.validate(ids[5], E, b, n=4, extra_vectors=[(1, 1, 1, 1), (1, 1, 0, 1), (1, 0, 0, 1), (0, 1, 1, 1), (0, 0, 0, 1)])
+
+
+def holder_commitment_claims(S, D):
+    """C07.h: our own commitment hit the chain - which of its HTLC outputs get a second-stage claim
+    (get_broadcasted_holder_htlc_descriptors, one loop iteration) and with which urgency height the claim package is
+    built (the closure of get_broadcasted_holder_claims)."""
+    import re
+    ids = ['C07.h.descriptor_iff_claimable', 'C07.h.nopanic', 'C07.h.package_shape', 'C07.h.nopanic2', 'C07.h.witness', 'C07.h.validate']      # (+ 'C07.h.validate2')
+    if all(S._skip(o) for o in ids):
+        return
+    HO = D.struct_fields('HTLCOutputInCommitment')
+    HD = D.struct_fields('HTLCDescriptor')
+
+    def ident(E, v):
+        if getattr(v, 'alt', None) is not None:
+            c_, x, y = v.alt
+            return z3.If(X.zbool(c_), ident(E, x), ident(E, y))
+        return z3.Int('ident.' + (getattr(v, 'base', None) or 'unknown%d' % next(E.nfresh)))
+    # ---- (a) the descriptor loop -----------------------------------------------------------------
+    f = S.fn('get_broadcasted_holder_htlc_descriptors')
+    E = S.engine(unwind=1)
+    mem = {}
+    args = [E.sym('a%d' % n, t, mem) if t.startswith('&') else X.Opaque('arg%d' % n) for n, t in f.params]
+    run = X.FnRun(E, f, args, True, mem)
+    succ, rpo, back, encl = run.analyse_cfg()
+    heads = [h for h in sorted({h for (u, h) in back}) if f.blocks[h][1][0] == 'call' and 'Zip<' in str(f.blocks[h][1][2]) and 'Iterator>::next' in str(f.blocks[h][1][2])]
+    if len(heads) != 1:
+        raise X.Unsupported('descriptor loop not found (%d candidates)' % len(heads))
+    htlc = E.sym('htlc', '&ln::chan_utils::HTLCOutputInCommitment', mem)
+    sig = X.Ref(E.new_cell())
+    mem[sig.cell] = X.Adt('Signature', {}, base='the_sig')
+    known = z3.Bool('env.preimage_known')
+    pushed = []
+
+    def deref(v, mem_):
+        while isinstance(v, X.Ref):
+            v = E.read_path(mem_[v.cell], v.path, mem_, True, 'spec')
+        return v
+
+    def h_get(E_, m, func, argv, guard, mem_, dty, caller):
+        c = E.new_cell()
+        mem_[c] = X.Tup([X.Adt('PaymentPreimage', {}, base='the_preimage'), X.Opaque('claim details')])
+        return X.En('Option', z3.If(known, 1, 0), {1: [X.Ref(c)]})
+
+    def h_push(E_, m, func, argv, guard, mem_, dty, caller):
+        pushed.append((X.zbool(guard), argv[1]))
+        return X.UNIT
+    for rx, h in [
+        (r'Zip<.*> as Iterator>::next$', lambda *a: X.En('Option', 1, {1: [X.Tup([htlc, sig])]})),
+        (r'HashMap::<.*PaymentHash.*>::get::<', h_get),
+        (r'(?:HTLCOutputInCommitment|ChannelTransactionParameters) as Clone>::clone$', lambda E_, m, func, argv, guard, mem_, dty, caller: deref(argv[0], mem_)),
+        (r'Vec::<(?:\w+::)*HTLCDescriptor>::push$', h_push),
+        (r'TrustedCommitmentTransaction::<.*>::txid$', lambda *a: X.Adt('Txid', {}, base='the_txid')),
+        (r'CommitmentTransaction::(?:per_commitment_point|negotiated_feerate_per_kw|commitment_number)$', lambda *a: X.Opaque('commitment field')),
+        (r'TrustedCommitmentTransaction<.*> as (?:std::ops::)?Deref>::deref$', lambda *a: X.Ref(0)),
+    ]:
+        E.models.insert(0, (re.compile(rx), h))
+    E.depth += 1
+    rv, ret, m2 = run.run(start_bb=heads[0])
+    E.depth -= 1
+    mem.update(m2)
+    cont = X.zbool(E.merge_mem(run.cut_states)[0]) if run.cut_states else z3.BoolVal(False)
+    hv = mem[htlc.cell]
+    rdh = lambda nm, ty: E.read_path(hv, (('f', HO.index(nm), ty),), mem, True, 'spec')
+    offered = X.zbool(rdh('offered', 'bool').t)                  # offered by US (it is our commitment)
+    has_idx = X.zint(rdh('transaction_output_index', 'Option<u32>').d) == 1
+    if len(pushed) != 1:
+        raise X.Unsupported('expected one push in the descriptor loop, found %d; %s' % (len(pushed), [w for g_, w in E.unsupported][:3]))
+    g_push, desc = pushed[0]
+    d_htlc = E.read_path(desc, (('f', HD.index('htlc'), 'ln::chan_utils::HTLCOutputInCommitment'),), mem, True, 'spec')
+    d_pre = E.read_path(desc, (('f', HD.index('preimage'), 'Option<types::payment::PaymentPreimage>'),), mem, True, 'spec')
+    d_sig = E.read_path(desc, (('f', HD.index('counterparty_sig'), 'bitcoin::secp256k1::ecdsa::Signature'),), mem, True, 'spec')
+    claimable = z3.Or(offered, known)
+    panic = z3.Or(*[X.zbool(p[0]) for p in E.panics]) if E.panics else False
+    two = lambda v: '%d %d' % (v[0], v[1])
+    # (third argument: the entry has an output index - always true in the live scenario)
+    b = Binding('holder_claim_probe', [z3.If(offered, 1, 0), z3.If(known, 1, 0), z3.If(has_idx, 1, 0)], [z3.If(g_push, 1, 0), None], which='oracle_tu', panic=panic,
+                domain=[(0, 1), (0, 1), (1, 1)], line_fn=two)
+    S.prove(ids[0], E, [has_idx],
+            z3.And(cont, g_push == claimable,
+                   z3.Implies(g_push, z3.And(ident(E, d_htlc) == ident(E, hv), ident(E, d_sig) == z3.Int('ident.the_sig'),
+                                             X.zint(d_pre.d) == z3.If(offered, 0, 1),
+                                             z3.Implies(z3.Not(offered), ident(E, E.en_payload(d_pre, 'Some', 1, 0, 'types::payment::PaymentPreimage', mem, 'spec')) == z3.Int('ident.the_preimage'))))),
+            'when our own commitment confirms, every non-dust HTLC we can resolve gets a second-stage descriptor - each HTLC we offered (HTLC-timeout, no preimage) and each received HTLC whose preimage is stored (HTLC-success with that preimage), carrying that HTLC and the counterparty signature paired with it; a received HTLC without preimage gets none; the scan always moves on',
+            [b], bounds='one loop iteration from an arbitrary loop-head state (any number of HTLCs)')
+    S.no_panic(ids[1], E, [has_idx], 'the non-dust list invariant (every entry has an output index) is the only assert', [b])
+    S.witness(ids[4], E, [has_idx, z3.Not(offered), known], g_push)
+    # ---- (b) the package closure -------------------------------------------------------------------
+    ix = S.mir()
+    c = [i for i in range(len(ix.offsets)) if re.search(r'::get_broadcasted_holder_claims::\{closure#0\}\(', ix.offsets[i][0])]
+    if len(c) != 1:
+        raise X.Unsupported('package closure of get_broadcasted_holder_claims: %d candidates' % len(c))
+    fc = ix.get(c[0])
+    E2 = S.engine()
+    mem2 = {}
+    conf_height = E2.sym('conf_height', 'u32')
+    cap_names = {}
+    for dn, dv in fc.debug.items():
+        mm = re.search(r'\(\*_1\)\.(\d+): ', dv)
+        if mm:
+            cap_names[int(mm.group(1))] = dn
+    caps = []
+    for k in range(max(cap_names) + 1 if cap_names else 0):
+        if cap_names.get(k) == 'conf_height':
+            cc = E2.new_cell()
+            mem2[cc] = conf_height
+            caps.append(X.Ref(cc))
+        else:
+            cc = E2.new_cell()
+            mem2[cc] = X.Opaque('captured ' + cap_names.get(k, '?'))
+            caps.append(X.Ref(cc))
+    key = re.search(r'\{closure@[^}]*\}', fc.params[0][1]).group(0)
+    ccell = E2.new_cell()
+    mem2[ccell] = X.Clo(key, caps)
+    descv = E2.sym('desc', fc.params[1][1], mem2)
+    pk = []
+    for rx, h in [
+        (r'TrustedCommitmentTransaction::<.*>::txid$', lambda *a: X.Adt('Txid', {}, base='the_txid')),
+        (r'HolderHTLCOutput::build$', lambda E_, m, func, argv, guard, mem_, dty, caller: X.Adt('HolderHTLCOutput', {0: argv[0]}, base='holder_out')),
+        (r'PackageTemplate::build_package$', lambda E_, m, func, argv, guard, mem_, dty, caller: (pk.append((X.zbool(guard), argv)), X.Adt('PackageTemplate', {}, base='pkg'))[1]),
+    ]:
+        E2.models.insert(0, (re.compile(rx), h))
+    S.call(E2, fc, [X.Ref(ccell), descv], mem2)
+    ret2 = S.ret_guard
+    if len(pk) != 1:
+        raise X.Unsupported('expected one build_package in the closure, found %d; %s' % (len(pk), [w for g_, w in E2.unsupported][:3]))
+    g_pk, (p_txid, p_vout, p_data, p_height) = pk[0]
+    dh = E2.read_path(descv, (('f', HD.index('htlc'), 'ln::chan_utils::HTLCOutputInCommitment'),), mem2, True, 'spec')
+    rd2 = lambda nm, ty: E2.read_path(dh, (('f', HO.index(nm), ty),), mem2, True, 'spec')
+    off2 = X.zbool(rd2('offered', 'bool').t)
+    cltv2 = rd2('cltv_expiry', 'u32').t
+    toi2 = rd2('transaction_output_index', 'Option<u32>')
+    idx2 = E2.en_payload(toi2, 'Some', 1, 0, 'u32', mem2, 'spec').t
+    pre2 = [X.zint(toi2.d) == 1]
+    panic2 = z3.Or(*[X.zbool(p[0]) for p in E2.panics]) if E2.panics else False
+    b2 = Binding('holder_claim_probe', [z3.If(off2, 1, 0), z3.IntVal(1), z3.If(X.zint(toi2.d) == 1, 1, 0)], [None, z3.If(off2, 1, 0)], which='oracle_tu', panic=panic2,
+                 domain=[(0, 1), (1, 1), (1, 1)], line_fn=two)
+    S.prove(ids[2], E2, pre2, z3.And(ret2, g_pk, p_vout.t == idx2, ident(E2, p_txid) == z3.Int('ident.the_txid'),
+                                     p_height.t == z3.If(off2, conf_height.t, cltv2)),
+            'the claim package spends (our commitment txid, the HTLC\'s output index) and carries the height from which the counterparty can compete for that output: the confirmation height for an HTLC we offered (they can claim it with the preimage at once), the CLTV expiry for one we received (they can time it out then)',
+            [b2], bounds='every descriptor of the list')
+    S.no_panic(ids[3], E2, pre2, 'no panic for a descriptor with an output index', [b2])
+    S.validate(ids[5], E, b, n=4, extra_vectors=[(1, 0, 1), (1, 1, 1), (0, 1, 1), (0, 0, 1)])
+    S.validate(ids[5] + '2', E2, b2, n=2, extra_vectors=[(1, 1, 1), (0, 1, 1)])
